@@ -14,6 +14,9 @@ KNOWN_OPS = 'C15-operators-in-from'
 KNOWN_SERIAL = 'C15-serial-from'
 KNOWN_OUTER = 'C15-from-in-set-operation'
 KNOWN_ORDER = 'C15-collation-order'
+KNOWN_INCL_SETOP = 'C15-inclusion-in-set-operation'
+KNOWN_HULL = 'C15-range-union-hull'
+KNOWN_FROM_ON_REF = 'C15-from-on-reference'
 
 
 def parse_from(text):
@@ -54,6 +57,43 @@ TSTRING = set('0123456789+-:.,/CDHMRPSTWYZ')
 def is_tstring(s):
     """the lexer reads such a cstring as a TIME value (finding C07-tstring): kept out of the C15 sweep"""
     return s and set(s) <= TSTRING and any(c.isdigit() for c in s) and any(not c.isdigit() for c in s)
+
+
+X680 = {'NumericString': set(' 0123456789'),
+        'PrintableString': set('ABCDEFGHIJKLMNOPQRSTUVWXYZabcdefghijklmnopqrstuvwxyz0123456789 \'()+,-./:=?'),
+        'VisibleString': set(chr(c) for c in range(0x20, 0x7f)),
+        'IA5String': set(chr(c) for c in range(0, 0x80)),
+        'BMPString': None, 'UniversalString': None}
+
+
+def chars_of(inner):
+    """every character written in the expression"""
+    out = []
+    s_ = inner
+    while True:
+        e = s_['base'] if 'e' not in s_ else s_['e']
+        if e.get('k') == 'single':
+            out += list(e['v'].get('s', ''))
+        elif e.get('k') == 'range':
+            for b in (e.get('lo'), e.get('hi')):
+                if b:
+                    out += list(b.get('s', ''))
+        if 'e' in s_:
+            return out
+        s_ = s_['operant']
+
+
+def reversed_range(inner):
+    """some range of the expression has its endpoints in descending order (not valid ASN.1)"""
+    def elems(s_):
+        while 'e' not in s_:
+            yield s_['base']
+            s_ = s_['operant']
+        yield s_['e']
+    for e in elems(inner):
+        if e.get('k') == 'range' and e.get('lo') and e.get('hi') and ord(e['lo']['s'][0]) > ord(e['hi']['s'][0]):
+            return True
+    return False
 
 
 def rand_alpha_elem(rng_, chars):
@@ -106,7 +146,18 @@ def judge(ck, cases, results):
             v = '(Some %s)' % c_subsets(obs) if kind == 0 else 'None'
             aterms.append('(%s, %s, %d%%N, %s)' % (c['cs'], clist([G.c_constraint(x) for x in c['constraints']]), kind, v))
             aidx.append(i)
-            if c.get('_inner') is not None and kind == 0:
+            if (c.get('_fam') == 'from' and kind == 1 and all(o == 'union' for o in c['_ops']) and not reversed_range(c['_inner'])
+                    and X680.get(c['cs']) is not None and set(chars_of(c['_inner'])) <= X680[c['cs']]
+                    and not any(e == '' for e in chars_of(c['_inner']))):
+                if c['cs'] in ('NumericString', 'PrintableString') and 'range' in json.dumps(c['_inner']) and ck.is_known(KNOWN_ORDER):
+                    ck.known_hit(KNOWN_ORDER, {'type': c['cs'], 'constraint': 'FROM (%s)' % G.t_eos(c['_inner']), 'impl': 'rejected'})
+                else:
+                    ck.violation('impl-violation', {k: v for k, v in c.items() if not k.startswith('_')}, impl=r, type=c['cs'],
+                                 constraint='FROM (%s)' % G.t_eos(c['_inner']),
+                                 why='a FROM constraint whose characters all belong to the X.680 alphabet of the type is rejected')
+            if c.get('_inner') is not None and kind == 0 and reversed_range(c['_inner']):
+                ck.count('invalid-input:reversed-range')        # X.680 51.4.2: lower endpoint <= upper endpoint; correspondence only
+            elif c.get('_inner') is not None and kind == 0:
                 oterms.append('(%s, %s, %s)' % (c['cs'], G.c_eos(c['_inner']), c_subsets(obs)))
                 oidx.append(i)
             elif c.get('_inner') is not None and kind == 2:
@@ -117,7 +168,8 @@ def judge(ck, cases, results):
     if csterms:
         for j in coq_eval_bad('C15', REQ, 'string_type * N * N * list N * list N', 'corr_charset', csterms, label='charset'):
             ck.broken.append({'kind': 'correspondence', 'item': 'T03 character_set', 'detail': 'translated table differs: %s' % csterms[j][:200]})
-    bad_o = coq_eval_bad('C15', REQ, 'string_type * eos * option (list subset)', 'oracle_from', oterms, label='oracle')
+    bad_o, unsound_o = coq_eval_bad_multi('C15', REQ, 'string_type * eos * option (list subset)', ['oracle_from', 'oracle_from_sound'], oterms, label='oracle')
+    unsound_o = set(unsound_o)
     failed = set()
     for j in bad_o:
         i = oidx[j]
@@ -125,8 +177,12 @@ def judge(ck, cases, results):
         c = cases[i]
         text = 'FROM (%s)' % G.t_eos(c['_inner'])
         ops = c['_ops']
-        if c.get('_fam') == 'from+size' and ck.is_known(KNOWN_OUTER):
+        if c.get('_fam') == 'from-except' and ck.is_known(KNOWN_OUTER):
             ck.known_hit(KNOWN_OUTER, {'type': c['cs'], 'constraint': G.t_constraint(c['constraints'][0]), 'impl': results[i].get('ok')})
+        elif (c.get('_fam') == 'from+size' and j not in unsound_o and json.dumps(c['_inner']).count('"range"') >= 1 and len(ops) >= 1
+              and ck.is_known(KNOWN_HULL)):
+            # folded together with SIZE, the union of ranges / strings that are not adjacent becomes their hull: a superset
+            ck.known_hit(KNOWN_HULL, {'type': c['cs'], 'constraint': G.t_constraint(c['constraints'][0]), 'impl': results[i].get('ok')})
         elif any(o != 'union' for o in ops) and ck.is_known(KNOWN_OPS):
             ck.known_hit(KNOWN_OPS, {'type': c['cs'], 'constraint': text, 'impl': results[i].get('ok')})
         elif c['cs'] in ('NumericString', 'PrintableString') and ck.is_known(KNOWN_ORDER) and 'range' in json.dumps(c['_inner']):
@@ -182,6 +238,146 @@ def judge_e2e(ck, cases, results):
                                  why='alphabet annotation in generated code differs from the hook result / expectation')
 
 
+def strings_only_inner(rng_, chars, n=None):
+    """union of 1..3 character strings (no ranges): exact on every known-multiplier type, also the two with a collation table"""
+    n = n or rng_.randint(1, 3)
+    elems = []
+    for _ in range(n):
+        while True:
+            st = ''.join(rng_.choice(chars) for _ in range(rng_.randint(1, 4)))
+            if not is_tstring(st):
+                break
+        elems.append(G.single(G.jstr(st)))
+    return elems
+
+
+INCL_FORMS = ['plain', 'includes', 'from', 'size-after', 'size-before', 'from-union', 'union-l', 'union-r', 'inter-l', 'inter-r', 'on-reference',
+              'union-plain-l', 'union-plain-r']
+
+
+def inclusion_cases(ck, n):
+    cases = []
+    for _ in range(n):
+        t = ck.rng.choice(KM)
+        # the included type: same string type, or NumericString (its characters belong to every other known-multiplier alphabet but PrintableString's table order)
+        t_inc = 'NumericString' if (t not in ('NumericString', 'PrintableString') and ck.rng.random() < 0.25) else t
+        chars_inc = POOL[t_inc]
+        use_ranges = t_inc not in ('NumericString', 'PrintableString') and ck.rng.random() < 0.5
+        form = ck.rng.choice(INCL_FORMS)
+        if use_ranges:
+            inner_a, _ops = rand_inner(ck.rng, chars_inc, True)
+            elems_a = None
+        else:
+            elems_a = strings_only_inner(ck.rng, chars_inc, 1 if form in ('inter-l', 'inter-r') else None)
+            inner_a = G.chain(elems_a, ['union'] * (len(elems_a) - 1))
+        if form in ('inter-l', 'inter-r') and (elems_a is None or len(elems_a) != 1):
+            form = 'plain'
+        elems_x = strings_only_inner(ck.rng, POOL[t])
+        inner_x = G.chain(elems_x, ['union'] * (len(elems_x) - 1))
+        ta, tx = G.t_eos(inner_a), G.t_eos(inner_x)
+        if '\t' in ta or '\t' in tx:
+            continue
+        nsz = ck.rng.randint(1, 9)
+        expr = {'plain': '(Inc)', 'includes': '(INCLUDES Inc)', 'from': '(FROM (Inc))',
+                'size-after': '(Inc)(SIZE (1..%d))' % nsz, 'size-before': '(SIZE (1..%d))(Inc)' % nsz,
+                'from-union': '(FROM (Inc | %s))' % tx, 'union-l': '(Inc | FROM (%s))' % tx, 'union-r': '(FROM (%s) | Inc)' % tx,
+                'inter-l': '(Inc ^ FROM (%s))' % tx, 'inter-r': '(FROM (%s) ^ Inc)' % tx, 'on-reference': '(FROM (%s))' % tx,
+                'union-plain-l': '(Plain | FROM (%s))' % tx, 'union-plain-r': '(FROM (%s) | Plain)' % tx}[form]
+        base_t = 'Inc' if form == 'on-reference' else t
+        # the characters permitted, as one expression the oracle can read
+        if form in ('plain', 'includes', 'from', 'size-after', 'size-before'):
+            sem = inner_a
+        elif form in ('from-union', 'union-l', 'union-r'):
+            sem = G.chain((elems_a if elems_a is not None else None) or [], []) if False else None
+            sem = {'base': None}
+            # union of two union-chains: concatenate their operand lists
+            def ops_of(s_):
+                out = []
+                while 'e' not in s_:
+                    out.append(s_['base'])
+                    s_ = s_['operant']
+                out.append(s_['e'])
+                return out
+            both = ops_of(inner_a) + ops_of(inner_x)
+            sem = G.chain(both, ['union'] * (len(both) - 1))
+        elif form in ('inter-l', 'inter-r', 'on-reference'):
+            if elems_a is None or len(elems_a) != 1:
+                continue
+            sem = {'base': elems_a[0], 'op': 'inter', 'operant': inner_x}
+        elif form in ('union-plain-l', 'union-plain-r'):
+            sem = G.E(G.rng(None, None))          # the union with an unconstrained type of the same kind permits every character
+        src = ('M DEFINITIONS AUTOMATIC TAGS ::= BEGIN\nInc ::= %s (FROM (%s))\nPlain ::= %s\nAa ::= %s %s\nBb ::= SEQUENCE { b %s %s }\nEND\n'
+               % (t_inc, ta, t, base_t, expr, base_t, expr))
+        cases.append({'op': 'compile', 'sources': [src], '_t': t, '_tinc': t_inc, '_form': form, '_sem': sem, '_inner_a': inner_a})
+    return cases
+
+
+def judge_inclusion(ck, cases, results):
+    terms, idx, cterms, cidx = [], [], [], []
+    for i, (c, r) in enumerate(zip(cases, results)):
+        ck.note_case('incl:' + c['sources'][0])
+        ck.count('inclusion:' + c['_form'])
+        if 'panic' in r or 'crash' in r:
+            ck.violation('impl-violation', c['sources'][0], impl=r, why='compiler crashed')
+            continue
+        if not r.get('ok') or 'items' not in r:
+            if c['_sem'] is not None and c['_form'] in ('inter-l', 'inter-r', 'on-reference'):
+                ck.count('inclusion-rejected')          # an empty intersection is reported, not silent
+                continue
+            ck.violation('impl-violation', c['sources'][0], impl={k: v for k, v in r.items() if k != 'items'}, why='valid inclusion rejected')
+            continue
+        mod = [m for m in r['items'] if m.get('kind') == 'mod'][0]
+        got = []
+        for it in mod['items']:
+            if it.get('kind') == 'struct' and it['name'] == 'Aa':
+                got.append(('assign', it['attrs'], it['fields'][0]['ty']))
+            if it.get('kind') == 'struct' and it['name'] == 'Bb':
+                got.append(('component', it['fields'][0]['attrs'], it['fields'][0]['ty']))
+        if len(got) < 2 and not r.get('warnings'):
+            ck.violation('impl-violation', c['sources'][0], why='constrained string type not generated')
+        for pos, attrs, ty in got:
+            m = None
+            for a in attrs:
+                mm = re.search(r'from\((?:"[^"]*",?)*\)', a)
+                if mm:
+                    m = mm.group(0)
+            try:
+                obs = parse_from(m) if m else None
+            except ValueError:
+                ck.violation('impl-violation', c['sources'][0], why='unparsable alphabet annotation', got=m)
+                continue
+            if c['_form'].startswith('union-plain') and obs is None:
+                continue                          # no annotation: every character, which is what the union permits
+            terms.append('(%s, %s, %s)' % (c['_t'], G.c_eos(c['_sem']), c_subsets(obs)))
+            idx.append((i, pos, obs))
+            if c['_form'] in ('plain', 'includes', 'from'):
+                cterms.append('(%s, %s, %s, %s)' % (c['_t'], c['_tinc'], clist([G.c_constraint({'set': G.E(G.alpha(c['_inner_a'])), 'ext': False})]), c_subsets(obs)))
+                cidx.append((i, pos))
+    bad, unsound = coq_eval_bad_multi('C15', REQ, 'string_type * eos * option (list subset)', ['oracle_from', 'oracle_from_sound'], terms, label='incl')
+    unsound = set(unsound)
+    failed = set()
+    for j in bad:
+        i, pos, obs = idx[j]
+        failed.add(i)
+        c = cases[i]
+        form = c['_form']
+        info = {'asn1': c['sources'][0], 'position': pos, 'got': obs}
+        if j not in unsound and form in ('union-l', 'union-r', 'inter-l', 'inter-r') and ck.is_known(KNOWN_INCL_SETOP):
+            ck.known_hit(KNOWN_INCL_SETOP, info)
+        elif j not in unsound and form == 'on-reference' and ck.is_known(KNOWN_FROM_ON_REF):
+            ck.known_hit(KNOWN_FROM_ON_REF, info)
+        else:
+            ck.violation('impl-violation', c['sources'][0], position=pos, got=obs, form=form, term=terms[j],
+                         why='inclusion of a constrained string type: the annotation does not denote the permitted characters'
+                             + (' (it excludes some)' if j in unsound else ''))
+    for j in coq_eval_bad('C15', REQ, 'string_type * string_type * list constraint * option (list subset)', 'corr_incl', cterms, label='incl_corr'):
+        i, pos = cidx[j]
+        if i in failed:
+            continue
+        ck.broken.append({'kind': 'correspondence', 'item': 'inclusion (AIncl) vs generated annotation',
+                          'detail': 'model and implementation disagree at %s on %s (%s)' % (pos, cases[i]['sources'][0], cterms[j][:400])})
+
+
 def run(ck):
     ck.coverage['rule'] = ('direct: format_alphabet_annotations (hook) on FROM expressions with 1..3 operands (strings of 1..6 characters, '
                            'ranges incl. MIN/MAX, | ^ EXCEPT) over each known-multiplier type, alone, with SIZE in either order, in set operations '
@@ -189,7 +385,7 @@ def run(ck):
                            'character by character over the base alphabet; end-to-end: assignment and component positions; the translated '
                            'character tables are compared with the implementation')
     ck.assumptions += ['theorems cover FROM with `|` only (single strings, ranges); other operators, serial FROMs and FROM inside outer set '
-                       'operations are known findings; contained subtypes (INCLUDES) are not modelled',
+                       'operations are known findings; inclusion of a constrained string type is modelled as a whole constraint (AIncl) and decided end to end inside set operations',
                        'the oracle samples the first 300 characters of the base alphabet and code points 0..299 outside it']
     ck.prove('Props/C15.v', ['RasnV.Props.C15'], extra=['Corr/C15.vo'], titems=['T03'])
     cases = [{'op': 'charset', 'cs': t} for t in KM + OTHER]
@@ -214,6 +410,14 @@ def run(ck):
             if order:
                 cs.reverse()
             cases.append({'op': 'alphabet', 'cs': t, 'constraints': cs, '_inner': inner, '_ops': ops, '_fam': 'from,size'})
+        for _ in range(n // 10):
+            # FROM (..) EXCEPT "string": removing one string value does not change the permitted alphabet (known finding when it does)
+            inner, ops = rand_inner(ck.rng, chars, True)
+            st = ''.join(ck.rng.choice(chars) for _ in range(ck.rng.randint(1, 3)))
+            if is_tstring(st):
+                continue
+            cases.append({'op': 'alphabet', 'cs': t, 'constraints': [{'set': G.chain([G.alpha(inner), G.single(G.jstr(st))], ['except']), 'ext': False}],
+                          '_inner': inner, '_ops': ops, '_fam': 'from-except'})
         for _ in range(n // 3):
             # correspondence only: mixed element sets in alphabet mode
             s = G.rand_mixed_eos(ck.rng, depth=2, strs=True)
@@ -235,6 +439,10 @@ def run(ck):
             src = 'M DEFINITIONS AUTOMATIC TAGS ::= BEGIN\nAa ::= %s %s\nBb ::= SEQUENCE { b %s %s }\nEND\n' % (c['cs'], text, c['cs'], text)
             e2e.append({'op': 'compile', 'sources': [src], '_want': parse_from(r['ok'])})
     judge_e2e(ck, e2e, run_harness(e2e))
+    inc = inclusion_cases(ck, 220 if ck.tier == 'quick' else 4000)
+    if inc:
+        ck.sample({'asn1': inc[0]['sources'][0]})
+    judge_inclusion(ck, inc, run_harness(inc))
 
 
 def replay(ck, data):
